@@ -39,7 +39,7 @@ func init() { register("C17", checkC17) }
 
 var c17Kinds = []string{"Xml", "XmlIndent", "Json", "JsonIndent", "ValuesForPath", "ValuesForPathSub", "ValuesForKey", "LeafNodes", "LeafPaths", "LeafValues",
 	"PathsForKey", "PathForKeyShortest", "Exists", "Elements", "Attributes", "Root", "Copy", "StringIndent", "Gob", "NewMap", "XmlWriter", "JsonWriter",
-	"SeqXml", "SeqXmlIndent", "SeqStringIndent", "DecodeXml", "DecodeSeq", "DecodeJson", "EncodePrivate", "AnyXml", "ValuesForKeySub", "ExistsSub"}
+	"SeqXml", "SeqXmlIndent", "SeqStringIndent", "DecodeXml", "DecodeSeq", "DecodeJson", "EncodePrivate", "AnyXml", "ValuesForKeySub", "ExistsSub", "StringIndentNoTypeInfo", "SeqStringIndentNoTypeInfo", "Struct"}
 
 // freshSpec returns a sub-key argument that no earlier call of this process has used and whose outcome does not
 // depend on the number in it (no generated Map has a key or value "zz<n>"): request-dependent sub-key values are
@@ -214,6 +214,18 @@ func runOpC17(o OpC17, shared mxj.Map, sharedSeq mxj.MapSeq, doc []byte, jdoc []
 		return fmt.Sprintf("%v|%v", canon(map[string]interface{}(c)) == canon(map[string]interface{}(shared)), err)
 	case "StringIndent":
 		return shared.StringIndent()
+	case "StringIndentNoTypeInfo":
+		return shared.StringIndentNoTypeInfo()
+	case "SeqStringIndentNoTypeInfo":
+		return sharedSeq.StringIndentNoTypeInfo()
+	case "Struct":
+		var into struct {
+			A interface{} `json:"a"`
+			B interface{} `json:"b"`
+			K interface{} `json:"k"`
+		}
+		err := shared.Struct(&into)
+		return fmt.Sprintf("%v|%v", canon(map[string]interface{}{"a": into.A, "b": into.B, "k": into.K}), err != nil)
 	case "Gob":
 		g, err := shared.Gob()
 		back, err2 := mxj.NewMapGob(g)
